@@ -34,9 +34,13 @@ func runC07(c *ShardCtx) {
 		// a nullable RULE (rule N <- 'z'? is added to the grammar) and a + over a nullable body
 		"nullrule":     func() *peg.Expr { return peg.Ref("N") },
 		"plusnullable": func() *peg.Expr { return peg.Plus(peg.Opt(a())) },
+		// classes that hold U+FFFD (the rune the runtime shows at the end of input and for invalid
+		// bytes): not nullable, they must not match without consuming anywhere
+		"fffdclass": func() *peg.Expr { return peg.Cls(false, false, "\uFFFD") }, "fffdrange": func() *peg.Expr { return peg.Cls(false, false, "\u00A0-\uFFFF", "a") },
+		"soclass": func() *peg.Expr { return peg.Cls(false, false, `\p{So}`) }, "fffdlit": func() *peg.Expr { return peg.Lit("\uFFFD") },
 		"plusnullrule": func() *peg.Expr { return peg.Plus(peg.Ref("N")) },
 	}
-	prefixOrder := []string{"none", "a", "empty", "opt", "star", "plus", "and", "not", "emptyclass", "notclass", "andcode", "state", "labempty", "choiceEmptyFirst", "choiceEmptyLast", "throw", "nullrule", "plusnullable", "plusnullrule", "actopt", "actnull"}
+	prefixOrder := []string{"none", "a", "empty", "opt", "star", "plus", "and", "not", "emptyclass", "notclass", "andcode", "state", "labempty", "choiceEmptyFirst", "choiceEmptyLast", "throw", "nullrule", "plusnullable", "plusnullrule", "actopt", "actnull", "fffdclass", "fffdrange", "soclass", "fffdlit"}
 	refItems := map[string]func(r string) *peg.Expr{
 		"R": func(r string) *peg.Expr { return peg.Ref(r) }, "R?": func(r string) *peg.Expr { return peg.Opt(peg.Ref(r)) },
 		"R*": func(r string) *peg.Expr { return peg.Star(peg.Ref(r)) }, "R+": func(r string) *peg.Expr { return peg.Plus(peg.Ref(r)) },
